@@ -13,6 +13,7 @@ pub mod ops;
 pub mod runner;
 pub mod sets;
 pub mod transcript;
+pub mod zst;
 
 #[global_allocator]
 static GLOBAL: instr::Counting = instr::Counting;
